@@ -6,8 +6,11 @@ use super::sym;
 pub fn lookup(name: &str) -> Option<fn()> {
     None.or_else(|| super::fuzzy::lookup(name))
         .or_else(|| super::chars_h::lookup(name))
+        .or_else(|| super::chars_h::lookup_uf(name))
         .or_else(|| super::exact_h::lookup(name))
         .or_else(|| super::uni_h::lookup(name))
+        .or_else(|| super::uni_h::repr::lookup(name))
+        .or_else(|| super::pattern_h::lookup(name))
 }
 
 #[cfg(test)]
